@@ -36,6 +36,7 @@ class Ctx:
         self.monitor_evals = {}
         self.skipped = {}
         self.inconclusive = []
+        self.hard_inconclusive = []  # cases the monitor could not judge at all: force the run's verdict to inconclusive
         self.t0 = time.time()
         self.budget_s = None
 
@@ -84,7 +85,7 @@ class Ctx:
         return {
             "evaluations": self.evaluations, "distinct": sorted(self.distinct), "samples": self.samples,
             "violations": self.violations, "obs": self.obs, "monitor_evals": self.monitor_evals,
-            "skipped": self.skipped, "inconclusive": self.inconclusive, "wall_s": time.time() - self.t0,
+            "skipped": self.skipped, "inconclusive": self.inconclusive, "hard_inconclusive": self.hard_inconclusive[:20], "wall_s": time.time() - self.t0,
         }
 
 
